@@ -63,17 +63,22 @@ func TestC07_Fallback(t *testing.T) {
 		if rapid.Bool().Draw(t, "open-filters") {
 			opt.AllPlatforms, opt.PipelineOnly, opt.Platforms, opt.NoCrossPlatform = true, false, nil, false
 		}
+		var labels0 []string
 		smallLimit := rapid.IntRange(0, 2).Draw(t, "small-limit") == 0
 		if smallLimit {
 			// the never-left-empty claim holds for every limit: try the ones that truncate
 			opt.Limit = rapid.SampledFrom([]int{1, 1, 2, 3}).Draw(t, "limit")
+		} else if rapid.IntRange(0, 5).Draw(t, "huge-limit") == 0 {
+			// "no limit" as callers spell it: the largest ints
+			opt.Limit = rapid.SampledFrom([]int{math.MaxInt, math.MaxInt/2 + 1, math.MaxInt / 2, 1 << 62, math.MaxInt32, math.MaxInt32 + 1}).Draw(t, "huge")
+			labels0 = append(labels0, "huge-limit")
 		}
 		warmed := warmUp(t, db, cmds, q, opt)
 		off := opt
 		off.UseFuzzy = false
 		rOff := db.SearchUniversal(q, off)
 		rOn := db.SearchUniversal(q, opt)
-		labels := []string{"db:" + string(cls), "q:" + string(qc)}
+		labels := append([]string{"db:" + string(cls), "q:" + string(qc)}, labels0...)
 		if opt.FuzzyThreshold != 0 {
 			labels = append(labels, "threshold-set")
 		}
